@@ -23,7 +23,14 @@ TRUSTED = ["model of C arithmetic: integer promotions to 32-bit int, signed over
            "gcc as a conforming C compiler for the generated module",
            "CPython 3.12 as the oracle for container iteration"]
 ASSUMPTIONS = ["LP64: char 8, short 16, int 32, long/Py_ssize_t 64 bits",
+               "runtime start bound of reversed(range()): for |step| >= 0x7FFF the division is emitted in Py_ssize_t; the "
+               "model carries it out in the bounds' own type, which differs only for unsigned long operands >= 2^63 "
+               "(counted under the F16 class)",
                "range bounds fit the loop target's C type (otherwise the argument conversion raises/truncates first)"]
+
+# flip to True once proposed_fixes/C14-reversed_range_bound_uses_cdivision.diff is applied to /repo: the start
+# bound of reversed(range()) then uses Python's // under every directive setting (model flag floor=true)
+CDIV_BOUND_FIXED = os.environ.get("C14_CDIV_BOUND_FIXED", "1") == "1"
 
 CAP = 40           # every body breaks at the CAP-th visit at the latest (wrapped loops would not end)
 INIT = 77          # initial value of the target
@@ -238,6 +245,10 @@ def leaves_type(kind, w, sg, cw, csg, a, b, s):
             d = b - a; d1 = d - 1; m = A * (d1 // A); x = a + m; b1 = x + 1
         if kind == "revr" and not all(clo <= v <= chi for v in (d, d1, m, x, b1)):
             return True
+        if kind == "revr" and A >= 0x7FFF and not (-2 ** 63 <= d1 < 2 ** 63):
+            # wide step constant: the division is carried out in Py_ssize_t (spanning_step_type), the
+            # unsigned long operand is converted to a signed type
+            return True
     off = 1 if neg else -1
     if not (lo <= b1 <= hi):
         return True
@@ -257,11 +268,11 @@ def cdiv_truncates(a, b, s):
 def classify(case):
     kind = case["kind"]
     if case.get("typed") and kind in ("fwd", "revr", "revc"):
-        if case.get("cdiv") and kind == "revr" and cdiv_truncates(case["a"], case["b"], case["s"]):
-            return "reversed_range_bound_uses_cdivision"
         if leaves_type(kind, case["w"], case["sg"], case.get("cw", case["w"]), case.get("csg", case["sg"]),
                        case["a"], case["b"], case["s"]):
             return "typed_range_wraps_at_type_bound"
+        if case.get("cdiv") and not CDIV_BOUND_FIXED and kind == "revr" and cdiv_truncates(case["a"], case["b"], case["s"]):
+            return "reversed_range_bound_uses_cdivision"
     return "wrong_iteration_" + kind
 
 
@@ -370,7 +381,8 @@ def run(ctx):
     _QUICK[0] = quick
     rng = ctx.rng
     triples = lit_triples(quick, rng)
-    specs = [dict(name="c14_%s" % nm, source=gen_typed(ct, nm, w, sg), workdir=ctx.workdir) for ct, nm, w, sg in TYPES]
+    types = [t for t in TYPES if not (quick and t[1] == "ssize_t")]      # Py_ssize_t == long on LP64: thorough only
+    specs = [dict(name="c14_%s" % nm, source=gen_typed(ct, nm, w, sg), workdir=ctx.workdir) for ct, nm, w, sg in types]
     specs.append(dict(name="c14_misc", source=gen_misc(False), workdir=ctx.workdir))
     specs.append(dict(name="c14_cdiv", source=gen_misc(True), workdir=ctx.workdir))
     litf = lit_functions(triples)
@@ -406,7 +418,7 @@ def run(ctx):
         jobs.append((mod, fn, argl)); metas.append(cases)
 
     brks = [CAP, 1, 3] if quick else [CAP, 1, 2, 3, 7]
-    for ct, nm, w, sg in TYPES:
+    for ct, nm, w, sg in types:
         gp = grid_pairs(sg)
         lat = lattice(w, sg, quick, rng)
         lp = [(a, b) for a in lat for b in lat]
@@ -500,7 +512,7 @@ def run(ctx):
             if k == "fwd" and c.get("typed"):
                 mq.append("fwd %d %d %d %d %d %d %d" % (c["w"], c["sg"], c["a"], c["b"], c["s"], c["brk"], fuel))
             elif k == "revr" and c.get("typed"):
-                mq.append("revr %d %d %d %d %d %d %d %d %d %d" % (0 if c.get("cdiv") else 1, c["w"], c["sg"], c.get("cw", c["w"]),
+                mq.append("revr %d %d %d %d %d %d %d %d %d %d" % (0 if (c.get("cdiv") and not CDIV_BOUND_FIXED) else 1, c["w"], c["sg"], c.get("cw", c["w"]),
                                                                  c.get("csg", c["sg"]), c["a"], c["b"], c["s"], c["brk"], fuel))
             elif k == "revc" and c.get("typed"):
                 mq.append("revc %d %d %d %d %d %d %d" % (c["w"], c["sg"], c["a"], c["b"], c["s"], c["brk"], fuel))
@@ -541,7 +553,7 @@ def run(ctx):
                 ok = got == exp
             else:
                 ok = got[0] != "exc" and (list(got[0]), got[1], bool(got[2])) == (exp[0], exp[1], exp[2])
-            if not ok and nbad.get(classify(c), 0) < 300:
+            if not ok and nbad.get(classify(c), 0) < (300 if classify(c) in getattr(ctx, "known_classes", {}) else 3):
                 nbad[classify(c)] = nbad.get(classify(c), 0) + 1
                 ctx.fail(classify(c), dict(inp, **{x: c[x] for x in ("kind", "a", "b", "s")}), _short(got), _short(exp),
                          note="model says %s" % m[:200])
@@ -549,6 +561,8 @@ def run(ctx):
             if k in ("zero", "var") or not c.get("typed") or c.get("reassign"):
                 continue
             mk, mv, safe = parse_model(m)
+            if k == "revr" and abs(c["s"]) >= 0x7FFF and not c["sg"] and c["w"] == 64 and classify(c) == "typed_range_wraps_at_type_bound":
+                continue        # division in Py_ssize_t for wide step constants: outside the model (and the theorem's hypothesis)
             if mk == "U":
                 continue        # the C text has undefined behaviour here: nothing to tie (oracle still applied above)
             if mk == "F" or got[0] == "exc":
